@@ -7,36 +7,74 @@ use std::sync::Arc;
 
 pub struct AtomicOption<T> {
     inner: AtomicCell<Option<T>>,
+    #[cfg(may_verif)]
+    site: &'static std::panic::Location<'static>,
 }
 
 const _: () = assert!(AtomicCell::<Option<CoroutineImpl>>::is_lock_free());
 const _: () = assert!(AtomicCell::<Option<Arc<Blocker>>>::is_lock_free());
 
 impl<T> AtomicOption<T> {
+    #[cfg_attr(may_verif, track_caller)]
     pub const fn none() -> AtomicOption<T> {
         AtomicOption {
+            #[cfg(may_verif)]
+            site: std::panic::Location::caller(),
             inner: AtomicCell::new(None),
         }
     }
 
+    #[cfg_attr(may_verif, track_caller)]
     pub const fn some(t: T) -> AtomicOption<T> {
         AtomicOption {
+            #[cfg(may_verif)]
+            site: std::panic::Location::caller(),
             inner: AtomicCell::new(Some(t)),
         }
     }
 
+    #[cfg(not(may_verif))]
     #[inline]
     pub fn store(&self, t: T) {
         self.inner.store(Some(t));
     }
 
+    #[cfg(not(may_verif))]
     #[inline]
     pub fn take(&self) -> Option<T> {
         self.inner.take()
     }
 
+    #[cfg(not(may_verif))]
     #[inline]
     pub fn clear(&self) {
         self.inner.store(None)
+    }
+
+    #[cfg(may_verif)]
+    pub fn store(&self, t: T) {
+        let id = crate::verif::item_id(&t);
+        crate::verif::op(self.site, self as *const _ as usize, "opt.store", id, 0, 0, || {
+            self.inner.store(Some(t));
+            0
+        });
+    }
+
+    #[cfg(may_verif)]
+    pub fn take(&self) -> Option<T> {
+        let mut r = None;
+        crate::verif::op(self.site, self as *const _ as usize, "opt.take", 0, 0, 0, || {
+            r = self.inner.take();
+            r.as_ref().map(crate::verif::item_id).unwrap_or(u64::MAX)
+        });
+        r
+    }
+
+    #[cfg(may_verif)]
+    pub fn clear(&self) {
+        crate::verif::op(self.site, self as *const _ as usize, "opt.clear", 0, 0, 0, || {
+            self.inner.store(None);
+            0
+        });
     }
 }
